@@ -7,6 +7,7 @@ harness against /repo's working tree, run corpus + seeded scripts on the real im
 every observed round with the model, run the monitors, write evidence, print the verdict.
 """
 import argparse
+import subprocess
 import glob
 import hashlib
 import json
@@ -23,7 +24,9 @@ import gen  # noqa
 import monitors  # noqa
 import props  # noqa  (property table)
 
-EVID = os.path.join(VERIF, "evidence")
+# seeded runs (tools/try_seed.sh, tools/seed_matrix.sh) write their evidence elsewhere: the files
+# under evidence/ always describe /repo as it is
+EVID = os.environ.get("VERIF_EVIDENCE_DIR") or os.path.join(VERIF, "evidence")
 REPLAYS = os.path.join(VERIF, "replays")
 KNOWN = os.path.join(VERIF, "KNOWN_FINDINGS.txt")
 
@@ -174,8 +177,25 @@ def nontrivial(rounds):
 
 
 def run_one_script(script, feats):
+    """Run one script on the real implementation; a director that hangs or dies leaves the HANG /
+    CRASH observation the sharded runner would have left."""
     bins = vlib.build_harness(tuple(sorted(feats)))
-    vlib.sh([bins["director"], script], timeout=300, check=True)
+    realtime = "mode realtime" in open(script).read(300)
+    limit = 90 if realtime else 15
+    for ext in (".obs", ".mon"):
+        if os.path.exists(script + ext):
+            os.remove(script + ext)
+    bad = None
+    try:
+        p = vlib.sh([bins["director"], script], timeout=limit)
+        if p.returncode != 0:
+            bad = "CRASH the director process died on this script (exit %d)" % p.returncode
+    except subprocess.TimeoutExpired:
+        bad = "HANG the director did not finish this script within %d s" % limit
+    if bad:
+        open(script + ".obs", "w").write("R 1\n%s\nE\n" % bad)
+        open(script + ".mon", "w").write(bad)
+    return bad
 
 
 def shrink(lines, feats, test, budget=80):
@@ -409,8 +429,10 @@ def main():
                 return bool(monitor_failures(pid, cfg, p))
             okk, _, _ = vlib.accept(p, cfg.get("projection", pid))
             return okk is False
+        # a script on which the director hangs costs its whole time limit per attempt: shrink less
+        slow = any(isinstance(x, str) and x.startswith(("HANG", "CRASH")) for x in failures)
         try:
-            small = shrink(lines, r["feats"], still)
+            small = shrink(lines, r["feats"], still, budget=16 if slow else 80)
         except Exception:
             small = lines
         payload = dict(property=pid, kind=kind, feats=list(r["feats"]), seed=seed, script=small,
